@@ -172,6 +172,20 @@ def _check(spec, stats, cls):
                 stats.label("refused_at_elaboration")
                 if metadata(comp) != meta0:
                     raise Violation("C19/purity/refused-elab-changed-metadata", f"{cls}")
+                # a refused elaboration must be refused again, the same deliberate way
+                for again in (2, 3):
+                    try:
+                        rtlil.convert(comp, ports=built.ports)
+                    except Exception as e2:
+                        if deliberate_refusal(e2) and type(e2) is type(e):
+                            continue
+                        if classify_exception(e2) is None:
+                            raise
+                        raise Violation(f"C19/re-elab-after-refusal/{_site(e2)}", f"{cls}: elaboration #1 was refused "
+                                        f"({type(e).__name__}), elaboration #{again} failed with {type(e2).__name__}: {str(e2)[:200]}")
+                    else:
+                        raise Violation(f"C19/re-elab-after-refusal/accepted/{cls}", f"elaboration #1 was refused "
+                                        f"({type(e).__name__}: {str(e)[:120]}), elaboration #{again} succeeded")
                 return
             if classify_exception(e) is None:
                 raise
